@@ -39,17 +39,26 @@ Plan(inst, seq) ==
 
 Served(inst, seq, q, j) == SumIdx(q, {i \in DOMAIN seq : seq[i] = j})
 
-\* nothing violated so far
-EveryVisitDelivers(seq, q) == \A k \in DOMAIN seq : seq[k] # 0 => q[k] >= 1   \* no empty-handed visit
+\* the constraints of the problem: no route hands over more than one vehicle load, no
+\* customer receives more than it asked for (both are stated here, although handing over
+\* min(missing, carried) can violate neither: what can go wrong is an incomplete service)
 NoRouteOverCap(inst, seq, q) == \A k \in DOMAIN seq : SumIdx(q, RouteStart(seq, k)..k) <= inst.cap
-NoOverServing(inst, seq, q) == \A j \in Cust(inst) : Served(inst, seq, q, j) <= inst.dem[j]
+NoOverServing(inst, seq, q)  == \A j \in Cust(inst) : Served(inst, seq, q, j) <= inst.dem[j]
+
+\* An empty-handed visit (the customer is already served, or the vehicle is empty) changes
+\* nothing but the position of the vehicle.  The usual formulations of the problem let a
+\* vehicle pass a customer without unloading (it is merely never useful), so by default
+\* such a visit is PRUNED (Pointless), not a violation.  Set the switch to TRUE to make
+\* "every visit hands over a positive quantity" a constraint of the problem instead.
+EmptyHandedVisitIsViolation == FALSE
+EveryVisitDelivers(seq, q) == \A k \in DOMAIN seq : seq[k] # 0 => q[k] >= 1
 
 PrefixOK(inst, pre) ==
   /\ \A k \in DOMAIN pre : pre[k] \in Actions(inst)
   /\ LET q == Plan(inst, pre) IN
-       /\ EveryVisitDelivers(pre, q)
        /\ NoRouteOverCap(inst, pre, q)
        /\ NoOverServing(inst, pre, q)
+       /\ (EmptyHandedVisitIsViolation => EveryVisitDelivers(pre, q))
 
 \* every customer's demand fully served
 Complete(inst, pre) ==
@@ -61,8 +70,12 @@ Feasible(inst, sol) == PrefixOK(inst, sol) /\ Complete(inst, sol)
 \* reward units: minus the closed tour depot -> sol -> depot
 Objective(inst, sol) == 0 - CycleLen(inst.D, <<0>> \o sol)
 
-\* documented pruning: staying at the depot
-Pointless(inst, pre, a) == a = 0 /\ Prev(pre) = 0
+\* documented pruning: moves that deliver nothing and change nothing -- staying at the depot
+\* (CVRP-style), and a visit that would hand over nothing ("the vehicle cannot visit
+\* customers exceed the remaining capacity", served customers are closed)
+Pointless(inst, pre, a) ==
+  \/ a = 0 /\ Prev(pre) = 0
+  \/ a # 0 /\ Last(Plan(inst, Append(pre, a))) = 0
 
 \* C02: two steps per customer plus one, one more pair per vehicle load
 Loads(inst) == (SumSeq(inst.dem) + inst.cap - 1) \div inst.cap
